@@ -139,29 +139,25 @@ pub mod kind {
     pub const DESTRUCT_SKIPPED: u32 = 6;
     /// a = object block: `try_dealloc` found weak > 0
     pub const DEALLOC_SKIPPED: u32 = 7;
-    /// a = object block: increment from zero took the token path (b = 0 strong, 1 weak)
-    pub const INC_FROM_ZERO: u32 = 8;
-    /// a = object block: `is_not_destructed` added a token
-    pub const UPGRADE_TOKEN: u32 = 9;
-    /// a = local, b = epoch word (pinned): validated pin of the outermost guard
+    /// a = cell, b = previous word, c = 0 AtomicRc::store | 1 AtomicRc::swap | 2 AtomicWeak::store | 3 AtomicWeak::swap
+    pub const LINK_SWAPPED: u32 = 10;
+    /// a = local, b = epoch value: validated pin of the outermost guard
     pub const PINNED: u32 = 20;
     /// a = local: validation in `pin` failed, retrying
     pub const PIN_RETRY: u32 = 21;
     /// a = local, b = guard_count on entry of `unpin`
     pub const UNPIN_ENTER: u32 = 22;
-    /// a = new epoch word
+    /// a = new epoch value
     pub const ADVANCED: u32 = 23;
     /// a = 0 lagging participant | 1 stalled iteration
     pub const ADVANCE_REFUSED: u32 = 24;
-    /// a = epoch word the bag was sealed with, b = number of deferred functions
+    /// a = epoch value the bag was sealed with, b = number of deferred functions
     pub const BAG_SEALED: u32 = 25;
     /// a = local
     pub const REGISTERED: u32 = 26;
     /// a = local, b = 1 if the local bag was non-empty
     pub const FINALIZE: u32 = 27;
-    /// a = local: `with_handle` fell back to a temporary registration
-    pub const HANDLE_FALLBACK: u32 = 28;
-    /// a = local, b = epoch word stored by `repin_without_collect`
+    /// a = local, b = epoch value stored by `repin_without_collect`
     pub const REPINNED: u32 = 29;
     /// a deferred function object was created / called
     pub const DEFERRED_NEW: u32 = 30;
